@@ -1,1 +1,4 @@
 // Lemmas for unit serde.
+
+// vacuity canary (MUST fail): an input with entries that fails part-way is a possible MapAccess
+proof fn canary_serde_input<'de, K, V, M: MapAccess<'de, K, V>>(m: &M) requires m.pos() == 0, m.entries().len() > 2, m.fail_at() == 1, ensures false {}
